@@ -1022,13 +1022,19 @@ static htp_status_t htp_martp_process_aside(htp_mpartp_t *parser, int matched) {
 
                     // Split the first chunk.
 
+                    // The candidate position refers to the first stored piece. If storing
+                    // a piece failed earlier (out of memory), the first piece we have may
+                    // be a later, shorter one: never go past its end.
+                    size_t candidate_pos = parser->boundary_candidate_pos;
+                    if (candidate_pos > bstr_len(b)) candidate_pos = bstr_len(b);
+
                     if (!matched) {
                         // In line mode, we are OK with line endings.
-                        parser->handle_data(parser, bstr_ptr(b), parser->boundary_candidate_pos, /* line */ 1);
+                        parser->handle_data(parser, bstr_ptr(b), candidate_pos, /* line */ 1);
                     } else {
                         // But if there was a match, the line ending belongs to the boundary.
                         unsigned char *dx = bstr_ptr(b);
-                        size_t lx = parser->boundary_candidate_pos;
+                        size_t lx = candidate_pos;
 
                         // Remove LF or CRLF.
                         if ((lx > 0) && (dx[lx - 1] == LF)) {
@@ -1045,8 +1051,8 @@ static htp_status_t htp_martp_process_aside(htp_mpartp_t *parser, int matched) {
                     // The second part of the split chunks belongs to the boundary
                     // when matched, data otherwise.
                     if (!matched) {
-                        parser->handle_data(parser, bstr_ptr(b) + parser->boundary_candidate_pos,
-                                bstr_len(b) - parser->boundary_candidate_pos, /* not a line */ 0);
+                        parser->handle_data(parser, bstr_ptr(b) + candidate_pos,
+                                bstr_len(b) - candidate_pos, /* not a line */ 0);
                     }
                 } else {
                     // Do not send data if there was a boundary match. The stored
